@@ -207,10 +207,14 @@ def run(job, mon):
         wit = lambda: dict(case=idx, seed=job['seed'], workload=kind,
                            pipeline=pname, xml_a=xa, xml_b=xb, q=q, qd=qd,
                            ctrl=a)
-        if not (phys.finite(*a1) and phys.finite(*b1)):
+        if not phys.finite(*b1):
+          # the reference twin itself blew up: nothing to compare with
           mon.count(kind + '_diverged:' + pname)
           continue
-        unit('with', a1[3], wit)
+        if phys.finite(*a1):
+          unit('with', a1[3], wit)
+        # (a non-finite run under test against a finite reference falls
+        # through to the comparison below and fails it if the guard holds)
         unit('without', b1[3], wit)
         if kind == 'separated':
           # the guard is evaluated on the *reference twin* (no collisions):
@@ -244,6 +248,8 @@ def run(job, mon):
             continue
           name = 'limits_equal_no_limits:' + pname
         e = state_err(a1, b1)
+        if not np.isfinite(e):
+          e = float('inf')
         passed = True
         mon.err(name, e)
         mon.check(name, e <= TOL, lambda: dict(wit(), err=e, with_=a1[:2],
